@@ -289,9 +289,10 @@ struct CaseResult {
     alloc: usize,
 }
 
-fn run_case(kind: &str, bytes: &[u8], m128: bool, fault: Fault, chunk: usize) -> CaseResult {
+fn run_case(kind: &str, bytes: &[u8], m128: bool, fault: Fault, chunk: usize, eof_ok0: bool) -> CaseResult {
     let base = begin_case();
-    let mk = |b: &[u8]| VAsset::new(b.to_vec()).with_fault(fault).chunked(chunk);
+    // the host's asset reports the end of the data as an error (BufferCursor) or as a read of 0 bytes (a plain file)
+    let mk = |b: &[u8]| VAsset::new(b.to_vec()).with_fault(fault).chunked(chunk).eof_ok0(eof_ok0);
     let mut emu_opt: Option<Emu> = None;
     let res: Result<Result<(), String>, String> = guarded(|| {
         let mut cfg = EmuCfg::new(m128);
@@ -566,12 +567,13 @@ pub fn run(args: &Args) {
         }
         *current.lock().unwrap() = (idx, what.clone(), std::time::Instant::now());
         CASE_IDX.store(idx, Ordering::SeqCst);
-        let r = run_case(kind, bytes, *m128, *fault, *chunk);
+        let eof_ok0 = (idx / 3) % 2 == 1;
+        let r = run_case(kind, bytes, *m128, *fault, *chunk, eof_ok0);
         CASE_IDX.store(usize::MAX, Ordering::SeqCst);
         *current.lock().unwrap() = (idx, String::new(), std::time::Instant::now());
         let mut f = file.lock().unwrap();
         writeln!(f, "{}", json!({"ev":"case","idx":idx,"what":what,"kind":kind,"outcome":r.outcome,"detail":r.detail,"post":r.post,
-                                 "alloc":r.alloc,"size":bytes.len()})).unwrap();
+                                 "alloc":r.alloc,"size":bytes.len(),"eof0":eof_ok0})).unwrap();
         n += 1;
     }
     file.lock().unwrap().flush().unwrap();
